@@ -184,6 +184,7 @@ class LifeDomain(Domain):
         st.data.update(sites=[], acts=[], conds=[], rowloops={}, tblloops={},
                        vacated=set(), rows_gone=set(), wipes=[], itercount={},
                        queue=[], selfreg=[], summary_calls=[], tbl_log=[],
+                       cond_binds=[],
                        replace_calls=[])
 
     # ------------------------------------------------------------------
@@ -234,9 +235,14 @@ class LifeDomain(Domain):
         st.trace.append(ev)
         k = ev.kind
         if k == 'cond':
-            vers = frozenset(st.versions.items())
+            # 4th item: versions of every chain at EVALUATION time (an alias of
+            # a row / index entry is the live container); the bind-time stamp
+            # of substituted locals is kept separately (flag freshness)
+            vers = dict(ev.sym.stamp)
+            vers.update(st.versions)
             st.data['conds'].append((unget(ev.sym.text), ev.sym.node,
-                                     ev.extra, ev.sym.stamp | vers))
+                                     ev.extra, frozenset(vers.items())))
+            st.data['cond_binds'].append(ev.sym.stamp)
         elif k == 'call' and ev.func is None:
             self._call(st, ev)
         elif k == 'store':
@@ -548,10 +554,15 @@ class LifeDomain(Domain):
 
     def _fresh_d(self, st):
         cur = st.versions.get('self._dispatch_enabled', 0)
-        for text, node, truth, stamp in reversed(st.data['conds']):
+        conds = st.data['conds']
+        binds = st.data['cond_binds']
+        for i in range(len(conds) - 1, -1, -1):
+            text, node, truth, stamp = conds[i]
             if text == 'self._dispatch_enabled':
+                # the flag VALUE must have been read after the last call-out
+                # (bind-time stamp of the expression, not evaluation time)
                 return truth is True and ('self._dispatch_enabled',
-                                          cur) in stamp
+                                          cur) in binds[i]
         return False
 
 
@@ -610,38 +621,75 @@ class Summary:
 
 # ----------------------------------------------------------------------
 def atoms_for(obj, conds, problems):
-    """H and A(ev) for object text `obj` from the path's decided conditions."""
-    H = None
-    A = {}
+    """Constraints on (H, A[ev]) for object text `obj` read off the path's
+    decided conditions.  Returns a list of (kind, event, truth):
+      ('H', None, t)   hasattr(obj,'__events__') / isinstance(obj, EventHandler)
+      ('A', ev, t)     ev in obj.__events__            (evaluating it needs H)
+      ('HA', ev, t)    ev in getattr(obj,'__events__', <empty>)   (H and A)
+    """
+    cons = []
     for text, node, truth, stamp in conds:
         n = node
         if isinstance(n, ast.Call) and dotted(n.func) == 'hasattr' \
                 and len(n.args) == 2 and norm(n.args[0]) == obj \
                 and isinstance(n.args[1], ast.Constant) \
                 and n.args[1].value == '__events__':
-            H = truth
+            cons.append(('H', None, truth))
             continue
         if isinstance(n, ast.Call) and dotted(n.func) == 'isinstance' \
                 and len(n.args) == 2 and norm(n.args[0]) == obj \
                 and (dotted(n.args[1]) or '').split('.')[-1] == 'EventHandler':
-            H = truth
+            cons.append(('H', None, truth))
             continue
         if isinstance(n, ast.Compare) and len(n.ops) == 1 and isinstance(
-                n.ops[0], ast.In) and isinstance(n.left, ast.Constant) \
-                and norm(n.comparators[0]) == f'{obj}.__events__':
-            A[n.left.value] = truth
-            continue
+                n.ops[0], ast.In) and isinstance(n.left, ast.Constant):
+            r = n.comparators[0]
+            if norm(r) == f'{obj}.__events__':
+                cons.append(('A', n.left.value, truth))
+                continue
+            if isinstance(r, ast.Call) and dotted(r.func) == 'getattr' \
+                    and len(r.args) == 3 and norm(r.args[0]) == obj \
+                    and isinstance(r.args[1], ast.Constant) \
+                    and r.args[1].value == '__events__' and (
+                        (isinstance(r.args[2], (ast.Tuple, ast.List,
+                                                ast.Set))
+                         and not r.args[2].elts) or (
+                            isinstance(r.args[2], ast.Dict)
+                            and not r.args[2].keys)):
+                cons.append(('HA', n.left.value, truth))
+                continue
         # a condition about the object's handler-ness we cannot classify
         for sub in ast.walk(n):
             if isinstance(sub, ast.Attribute) and sub.attr == '__events__' \
                     and norm(sub.value) == obj:
                 problems.append(('cond', text))
             elif isinstance(sub, ast.Call) and dotted(sub.func) in (
-                    'hasattr', 'getattr', 'isinstance') and sub.args \
-                    and norm(sub.args[0]) == obj and dotted(sub.func) \
-                    != 'isinstance':
+                    'hasattr', 'getattr') and sub.args \
+                    and norm(sub.args[0]) == obj:
                 problems.append(('cond', text))
-    return H, A
+    return cons
+
+
+def consistent_valuations(cons, evname):
+    """(H, A) valuations of one object compatible with the constraints."""
+    out = []
+    for H, A in ((False, False), (True, False), (True, True)):
+        ok = True
+        for kind, ev, truth in cons:
+            if kind == 'H':
+                if H != truth:
+                    ok = False
+            elif kind == 'A':
+                if not H:
+                    ok = False      # would have raised AttributeError
+                elif ev == evname and A != truth:
+                    ok = False
+            elif kind == 'HA':
+                if ev == evname and (H and A) != truth:
+                    ok = False
+        if ok:
+            out.append((H, A))
+    return out
 
 
 def expected_args(site, kind):
@@ -710,7 +758,7 @@ def check_path(st, func, results, problems):
                     'path': path_summary(st)})
     for obj, ss in by_obj.items():
         localp = []
-        H, A = atoms_for(obj, conds, localp)
+        cons = atoms_for(obj, conds, localp)
         mine = [a for a in acts if a.obj == obj]
         if localp:
             problems.append((func.qualname, ss[0].node,
@@ -723,69 +771,64 @@ def check_path(st, func, results, problems):
             r = res('protocol', s)
             evname = ON_ADD if s.kind == 'attach' else ON_REMOVE
             regkind = 'reg' if s.kind == 'attach' else 'unreg'
+            regname = 'add_handler' if regkind == 'reg' else 'remove_handler'
             n_same = n_att if s.kind == 'attach' else n_det
             regs = [a for a in mine if a.kind == regkind]
             notes = [a for a in mine if a.kind in ('direct', 'relay')
                      and a.ev == evname]
             odd = [a for a in mine if a.kind in ('direct', 'relay')
                    and a.ev not in (ON_ADD, ON_REMOVE)]
-            val = {'H': H, 'A': A.get(evname)}
             bad = None
+            val = None
             if odd:
                 bad = f'notification with an unexpected event name: {odd[0]}'
-            elif H is False:
-                if regs or notes:
-                    bad = ('the object is not a handler on this path (no '
-                           '__events__) yet it is '
-                           + ('registered/unregistered' if regs else
-                              'notified'))
-            elif H is None:
-                bad = ('the handler test hasattr(x, "__events__") is never '
-                       'made on this path: '
-                       + ('the object is registered/notified even if it is '
-                          'not a handler' if (regs or notes) else
-                          'a handler component is neither registered nor '
-                          'notified'))
-            else:
-                if len(regs) != n_same:
-                    bad = (f'{len(regs)} call(s) of '
-                           f'{"add_handler" if regkind == "reg" else "remove_handler"}'
-                           f' for the object, expected {n_same}')
-                a = A.get(evname)
-                if bad is None:
-                    if a is True and len(notes) != n_same:
-                        bad = (f'{len(notes)} notification(s) of {evname}, '
-                               f'expected exactly {n_same}')
-                    elif a is False and notes:
-                        bad = (f'{evname} is not mapped by the handler on this'
-                               f' path, yet it is notified ({notes[0].kind}): '
-                               'KeyError now or when dispatching is enabled')
-                    elif a is None and H:
-                        bad = (f'the test "{evname} in x.__events__" is never '
-                               'made on this path: '
-                               + ('a handler without it raises KeyError'
-                                  if notes else
-                                  f'a handler mapping {evname} is not told'))
-                if bad is None:
-                    for nt in notes:
-                        want = expected_args(s, nt.kind)
-                        if nt.kind == 'relay':
-                            want = want
-                            got = nt.args
-                        else:
-                            got = nt.args
-                        if got != want:
-                            bad = (f'{nt.kind} notification carries '
-                                   f'({", ".join(got)}), expected '
-                                   f'({", ".join(want)})')
-                            break
-                        if nt.kind == 'direct' and not nt.fresh_d:
-                            bad = ('callback invoked directly although '
-                                   'dispatching is not known to be enabled at '
-                                   'that point (flag not tested, tested false,'
-                                   ' or read before an earlier call-out that '
-                                   'may have toggled it)')
-                            break
+            vals = consistent_valuations(cons, evname)
+            for H, A in ([] if bad else vals):
+                val = {'H': H, 'A': A}
+                want_reg = n_same if H else 0
+                want_note = n_same if (H and A) else 0
+                what = ('not a handler (no __events__)' if not H else
+                        f'a handler that maps {evname}' if A else
+                        f'a handler that does not map {evname}')
+                if len(regs) != want_reg:
+                    bad = (f'for an object that is {what}: {len(regs)} '
+                           f'call(s) of {regname}, expected {want_reg}'
+                           + ('' if H else ' (the handler test is missing or '
+                              'too weak on this path)'))
+                    break
+                if len(notes) != want_note:
+                    bad = (f'for an object that is {what}: {len(notes)} '
+                           f'notification(s) of {evname}, expected exactly '
+                           f'{want_note}' + (
+                               ': KeyError now or when dispatching is '
+                               'enabled' if notes and H and not A else ''))
+                    break
+            if bad is None:
+                for nt in notes:
+                    want = expected_args(s, nt.kind)
+                    got = nt.args
+                    if got != want:
+                        bad = (f'{nt.kind} notification carries '
+                               f'({", ".join(got)}), expected '
+                               f'({", ".join(want)})')
+                        break
+                    if nt.kind == 'direct' and not nt.fresh_d:
+                        bad = ('callback invoked directly although '
+                               'dispatching is not known to be enabled at '
+                               'that point (flag not tested, tested false,'
+                               ' or read before an earlier call-out that '
+                               'may have toggled it)')
+                        break
+            if bad is None and s.kind == 'attach' and regs and notes:
+                # registered before it is told: an on_add that detaches its
+                # own component must find it registered
+                ireg = min(acts.index(a) for a in regs)
+                inote = min(acts.index(a) for a in notes)
+                if inote < ireg:
+                    bad = ('the component is told on_add before it is '
+                           'registered as a listener: an on_add that removes '
+                           'its own component (or deletes its entity) leaves '
+                           'it registered while detached')
             if bad:
                 r['bad'].append({'why': bad, 'object': obj, 'valuation': val,
                                  'actions': [repr(a) for a in mine],
